@@ -22,7 +22,7 @@ m = {
     "setup_cmd": "python3 setup.py",
     "hooks": {
         "guard": "cfg(kani) / cfg(verif_replay) (set only on the scratch copy; no hook lives in /repo)",
-        "enable": "run_check.py copies /repo's working tree to /var/tmp/acb-verif/<id>, appends `#[cfg(kani)] #[path=/verif/harness/..] pub mod kani_harness;` to the anchored files there and builds with cargo kani; /repo itself carries no verification code",
+        "enable": "run_check.py copies /repo's working tree to /var/tmp/acb-verif/<id>, copies /verif/harness and /verif/model into it, appends `#[cfg(kani)] #[path=<copy>/verif_overlay/harness/..] pub mod kani_harness;` to the anchored files there, patches rust_decimal/async-std/tracing to the model crates under /verif/stubs and builds with cargo kani (native replay: the same copy with cfg(verif_replay) and the real crates); /repo itself carries no verification code",
         "baseline_off_cmd": "cd /repo && cargo test --workspace --no-fail-fast --offline",
         "source_commits": [],
         "add_only": True,
